@@ -206,3 +206,84 @@ func runSharedRead(a *args) {
 }
 
 func init() { modes["ratingconc"] = runRatingConc; modes["sharedread"] = runSharedRead }
+
+// concset (C14): every CPU hammers Set / Get on its OWN objects with every (metric, legal value) pair of the
+// version - calls that were first made once sequentially (whatever they answer alone is the baseline: a pair
+// that misbehaves alone is C07 / C09 business and is skipped).  Under concurrency the same call on an object of
+// the same value must answer the same: a spurious refusal, or a value stored wrongly because another
+// goroutine's Set rewrote a shared scratch list in between, shows here.
+func runConcSet(a *args) {
+	prop := a.Prop
+	col := newCollector("concset", prop)
+	var tabs specTables
+	if err := json.Unmarshal([]byte(a.Aux), &tabs); err != nil {
+		fatal("concset: -aux must carry the spec tables: %v", err)
+	}
+	N := a.N
+	if N <= 0 {
+		N = 150000
+	}
+	G := runtime.GOMAXPROCS(0)
+	var total int64
+	var mu sync.Mutex
+	for _, vn := range verOrder {
+		v := versions[vn]
+		ord, vals := tabs.Order[vn], tabs.Values[vn]
+		type pair struct{ m, x string }
+		var pairs []pair
+		for _, m := range ord { // sequential baseline on the zero value
+			for _, x := range vals[m] {
+				o := v.Zero()
+				okSeq := false
+				safely(func() {
+					if o.Set(m, x) == nil {
+						g, e := o.Get(m)
+						okSeq = e == nil && g == x
+					}
+				})
+				if okSeq {
+					pairs = append(pairs, pair{m, x})
+				}
+			}
+		}
+		if len(pairs) == 0 {
+			continue
+		}
+		var wg sync.WaitGroup
+		for g := 0; g < G; g++ {
+			wg.Add(1)
+			go func(g int) {
+				defer wg.Done()
+				r := rand.New(rand.NewSource(a.Seed*389 + int64(g)))
+				o := v.Zero()
+				var n int64
+				for i := 0; i < N; i++ {
+					p := pairs[r.Intn(len(pairs))]
+					var err error
+					var got string
+					pan, msg := safely(func() {
+						err = o.Set(p.m, p.x)
+						got, _ = o.Get(p.m)
+					})
+					n++
+					if pan || err != nil || got != p.x {
+						col.violate(Violation{Property: prop, Kind: "Set / Get on an object of its own answers differently while other goroutines call Set (alone the same call succeeds)", Version: vn,
+							Input: map[string]interface{}{"abv": p.m, "value": p.x, "goroutines": G}, Expected: map[string]interface{}{"error": "none", "get": p.x},
+							Observed: map[string]interface{}{"error": v.ErrKind(err), "get": got, "panic": msg}})
+					}
+				}
+				mu.Lock()
+				total += n
+				mu.Unlock()
+			}(g)
+		}
+		wg.Wait()
+	}
+	col.s.Evaluations = total
+	col.s.Distinct = total
+	col.s.Nontrivial = total
+	col.count("concurrent Set / Get calls compared with their sequential outcome", total)
+	col.write(a.Out)
+}
+
+func init() { modes["concset"] = runConcSet }
